@@ -52,7 +52,7 @@ type JSONRPCResponse struct {
 // Conforms to the JSONRPCError definition in schema.json
 type JSONRPCError struct {
 	JSONRPC string    `json:"jsonrpc"`
-	ID      RequestId `json:"id,omitempty"`
+	ID      RequestId `json:"id"`
 	Error   struct {
 		Code    int         `json:"code"`
 		Message string      `json:"message"`
